@@ -53,27 +53,31 @@ Params1 == SubSeq(Params4, 1, 1)
 Pairs9 == {<<i, j>> : i \in 1..3, j \in 1..3}
 Pairs2 == {<<1, 2>>, <<3, 1>>}
 Pairs1 == {<<1, 2>>}
+Pairs0 == {}
 
-(* ---- folding: well-typed expressions of depth <= 2 over constants and three columns (int, int, str) ---- *)
+(* ---- folding: well-typed expressions of depth <= 2 over constants and three columns (int, int, str).
+        The sets take a dummy argument so that TLC builds them only in the configurations that use them. ---- *)
 Acc(i, ty) == [k |-> "acc", i |-> i, ty |-> ty]
 IntLeaves == {Const(I(0)), Const(I(2)), Const(I(-3)), Acc(1, "int"), Acc(2, "int")}
 StrLeaves == {Const(S(1)), Const(S(2)), Acc(3, "str")}
-Int1 == IntLeaves \cup {Bin(op, a, b) : op \in {"add", "sub"}, a \in IntLeaves, b \in IntLeaves}
-Bool1 == {Bin(op, a, b) : op \in {"gt", "eq", "le"}, a \in IntLeaves, b \in IntLeaves}
-         \cup {Bin(op, a, b) : op \in {"eq", "lt"}, a \in StrLeaves, b \in StrLeaves}
-Int2 == {Bin(op, a, b) : op \in {"add", "sub"}, a \in Int1, b \in Int1}
-Bool2 == {Bin(op, a, b) : op \in {"gt", "eq", "ne"}, a \in Int1, b \in Int1} \cup {And2(a, b) : a \in Bool1, b \in Bool1}
-FoldSpace == Int1 \cup Bool1 \cup Int2 \cup Bool2
+Int1(u) == IntLeaves \cup {Bin(op, a, b) : op \in {"add", "sub"}, a \in IntLeaves, b \in IntLeaves}
+Bool1(u) == {Bin(op, a, b) : op \in {"gt", "eq", "le"}, a \in IntLeaves, b \in IntLeaves}
+            \cup {Bin(op, a, b) : op \in {"eq", "lt"}, a \in StrLeaves, b \in StrLeaves}
+Int2(u) == {Bin(op, a, b) : op \in {"add", "sub"}, a \in Int1(u), b \in Int1(u)}
+Bool2(u) == {Bin(op, a, b) : op \in {"gt", "eq", "ne"}, a \in Int1(u), b \in Int1(u)}
+            \cup {And2(a, b) : a \in Bool1(u), b \in Bool1(u)}
+FoldSpace(u) == Int1(u) \cup Bool1(u) \cup Int2(u) \cup Bool2(u)
 FoldRows == { <<I(1), I(4), S(1)>>, <<Null, I(0), S(2)>>, <<I(-3), Null, Null>>, <<I(2), I(2), S(0)>> }
-FoldLaw == cur = cur /\ FoldLawOn(FoldSpace, FoldRows)
+FoldLaw == cur = cur /\ FoldLawOn(FoldSpace(0), FoldRows)
 (* constant expressions for the spec->code replay of folding *)
 ConstLeavesI == {Const(I(0)), Const(I(2)), Const(I(7)), Const(I(3))}
 ConstLeavesS == {Const(S(1)), Const(S(2))}
-CInt1 == ConstLeavesI \cup {Bin(op, a, b) : op \in {"add", "sub"}, a \in ConstLeavesI, b \in ConstLeavesI}
-CBool1 == {Bin(op, a, b) : op \in {"gt", "eq", "le", "ne"}, a \in ConstLeavesI, b \in ConstLeavesI}
-          \cup {Bin(op, a, b) : op \in {"eq", "lt", "ge"}, a \in ConstLeavesS, b \in ConstLeavesS}
-CInt2 == {Bin(op, a, b) : op \in {"add", "sub"}, a \in CInt1, b \in CInt1}
-CBool2 == {Bin(op, a, b) : op \in {"gt", "eq", "lt"}, a \in CInt1, b \in CInt1}
-ConstSpaceQuick == {e \in CInt1 \cup CBool1 : e.k # "c"} \cup {Bin(op, a, b) : op \in {"sub"}, a \in CInt1, b \in ConstLeavesI}
-ConstSpaceAll == {e \in CInt1 \cup CBool1 \cup CInt2 \cup CBool2 : e.k # "c"}
+CInt1(u) == ConstLeavesI \cup {Bin(op, a, b) : op \in {"add", "sub"}, a \in ConstLeavesI, b \in ConstLeavesI}
+CBool1(u) == {Bin(op, a, b) : op \in {"gt", "eq", "le", "ne"}, a \in ConstLeavesI, b \in ConstLeavesI}
+             \cup {Bin(op, a, b) : op \in {"eq", "lt", "ge"}, a \in ConstLeavesS, b \in ConstLeavesS}
+CInt2(u) == {Bin(op, a, b) : op \in {"add", "sub"}, a \in CInt1(u), b \in CInt1(u)}
+CBool2(u) == {Bin(op, a, b) : op \in {"gt", "eq", "lt"}, a \in CInt1(u), b \in CInt1(u)}
+ConstSpaceQuick(u) == {e \in CInt1(u) \cup CBool1(u) : e.k # "c"}
+                      \cup {Bin(op, a, b) : op \in {"sub"}, a \in CInt1(u), b \in ConstLeavesI}
+ConstSpaceAll(u) == {e \in CInt1(u) \cup CBool1(u) \cup CInt2(u) \cup CBool2(u) : e.k # "c"}
 =============================================================================
